@@ -411,8 +411,7 @@ def run(ctx):
     hreqs += [('debian822_history', [r if r != 'file' else 'text2', i, model_ops(o)]) for r, i, o in hist_obs[:ctx.n(1500, 20000)]]
     bad = ctx.compare('corr:history', hreqs, impl)
     bad += ctx.compare('corr:normalize', [('normalize_control_field_name', [c]) for n in names for c in casings(n)], _copy.impl)
-    bad += ctx.compare('corr:parse_control_fields', [('parse_control_fields', [t]) for t in typed], impl,
-                       norm=lambda v: v)
+    bad += ctx.compare('corr:parse_control_fields', [('parse_control_fields', [t]) for t in typed], impl)
     bad += ctx.compare('corr:dumps', [('dumps822', [[[k.lower(), v] for k, v in t]]) for t in rts], impl)
     mv = ['%s <%s>' % x for x in mnt] + ['Jane Doe', 'a@b.c', '<a@b.c>', 'Jane <a@b>', '"Q" <a@b.c>', 'J (c) <a@b.c>', 'a, b <c@d.e>', ' Jane Doe <a@b.c> ']
     reqs = [('maintainer', [v]) for v in mv]
